@@ -492,9 +492,53 @@ func genTraceFacts(repo, out string) {
 		// the schedule of Multiply is not a function of (nil?, one?) alone: recorded, and the C19 theorem will not build
 		// (the names the driver refers to stay defined, so only the C19 theorems stop checking, not every build)
 		fmt.Fprintf(&b, "/-- extraction failed: %s -/\ndef extractionFailure : String := %q\n\n", t.fail, t.fail)
-		b.WriteString("def multiplyAlternatives : List (List String) := []\n\ndef multiplyGuards : List Nat := []\n\nend TraceFacts\n")
+		b.WriteString("def ladderPrefix : List String := []\ndef ladderLoops : List String := []\ndef ladderSuffix : List String := []\ndef multiplyAlternatives : List (List String) := []\n\ndef multiplyGuards : List Nat := []\n\nend TraceFacts\n")
 		writeIfChanged(out+"/TraceFacts.lean", b.String())
 		return
+	}
+	// the ladder alternative (the last one, of the function that contains the loop), cut at its repetitions: what comes
+	// before the first, the repetitions themselves, what comes after the last
+	var ladderFn *types.Func
+	ladderDefs := "def ladderPrefix : List String := []\ndef ladderLoops : List String := []\ndef ladderSuffix : List String := []\n"
+	{
+		var pre, loops, post []string
+		for _, fn := range t.order {
+			as := t.memo[fn]
+			if len(as) == 0 {
+				continue
+			}
+			last := as[len(as)-1]
+			hasLoop := false
+			for _, it := range last.items {
+				if strings.HasPrefix(it, "(List.replicate ") {
+					hasLoop = true
+				}
+			}
+			if !hasLoop || !strings.HasSuffix(mangle(fn), "_multiply") {
+				continue
+			}
+			pre, loops, post = nil, nil, nil
+			ladderFn = fn
+			for _, it := range last.items {
+				switch {
+				case strings.HasPrefix(it, "(List.replicate "):
+					loops = append(loops, post...) // anything between two repetitions stays with the loops
+					post = nil
+					loops = append(loops, it)
+				case len(loops) == 0:
+					pre = append(pre, it)
+				default:
+					post = append(post, it)
+				}
+			}
+		}
+		join := func(xs []string) string {
+			if len(xs) == 0 {
+				return "[]"
+			}
+			return strings.Join(xs, " ++ ")
+		}
+		ladderDefs = fmt.Sprintf("/-- the ladder alternative of `multiply`, cut at its loop -/\ndef ladderPrefix : List String := %s\ndef ladderLoops : List String := %s\ndef ladderSuffix : List String := %s\n", join(pre), join(loops), join(post))
 	}
 	for _, fn := range t.order {
 		as := t.memo[fn]
@@ -507,9 +551,15 @@ func genTraceFacts(repo, out string) {
 			if body == "" {
 				body = "[]"
 			}
+			if fn == ladderFn && i == len(as)-1 {
+				b.WriteString(ladderDefs)
+				ladderDefs = ""
+				body = "ladderPrefix ++ ladderLoops ++ ladderSuffix"
+			}
 			fmt.Fprintf(&b, "def %s : List String := %s\n", name, body)
 		}
 	}
+	b.WriteString(ladderDefs)
 	fmt.Fprintf(&b, "\n/-- alternatives of `(*Element).Multiply`, early exits first, in source order -/\ndef multiplyAlternatives : List (List String) := [")
 	for i := range alts {
 		if i > 0 {
